@@ -356,7 +356,8 @@ def run_text_stage(run, kind, n=None):
     cases = corpus_cases(kind) + [gen_case(r, kind, i) for i in range(n)]
     st = new_stats()
     distinct = set()
-    check_cases(run, cases, st, distinct)
+    with run.in_stage("T01"):
+        check_cases(run, cases, st, distinct)
     st["distinct_texts"] = len(distinct)
     st = {k: v for k, v in st.items() if not (k in ("glued_account_amount", "headers_with_metadata", "entries_dropped_empty") and kind != "register")
           and not (k in ("empty_reports", "nonzero_deltas", "mixed_commodity_and_none", "multibyte_commodity", "blocks_with_figure_wider_than_column") and kind == "register")}
